@@ -164,7 +164,9 @@ class C12(Prop):
                    "harness discipline (also in the model): at most MAX_TEXT/16 unread bytes per user and at most MAX_EVENTS-2 "
                    "ready descriptors per poll round; partial reads, a CR|LF split across reads, the 'no room' exit of "
                    "reframe_single_char_input and the truncation of an over-long partial line are not modelled",
-                   "`!` shell escapes with a pending input_to, ed, snooping, console user (slot 0), telnet negotiation bytes",
+                   "`!` shell escapes (harness and model refuse to send data containing `!`), ed, snooping, telnet negotiation bytes; console "
+                   "user: the grant loop, the scan and the cursor theorems range over slot 0 as well, but add_console_line as a "
+                   "command source (console worker thread) is not driven by the harness",
                    "heart beats: an iteration aborted by an error skips call_heart_beat() (property C11)"]
 
     # ---- tie: scheduling expressions regenerated from the source text ------------------------------------
@@ -454,6 +456,7 @@ class C12(Prop):
                                                         "send u6 y~", "send u7 z~", "send u5 w~", "cycle", "cycle"])
         mk("disconnect-with-data-and-connect", conns(3) + ["send u1 a~b~", "close u1", "conn", "send u2 x~", "cycle", "cycle",
                                                            "conn", "close u2", "cycle", "send u4 q~", "send u5 r~", "cycle", "cycle"])
+        mk("bang-is-never-sent", conns(1) + ["send u1 !a~", "send u1 b~", "send u1 c!~", "cycle", "cycle"])
         mk("no-cycle", ["conn", "send u1 a~"])
         mk("idle-cycles", ["cycle", "cycle", "conn", "cycle", "cycle", "send u1 a~", "cycle"])
         mk("everybody-kicked", ["script u1 =k kick,u2;kick,u3;kick,u1"] + conns(3) +
